@@ -286,6 +286,14 @@ func (i *interpreter) callNative(fr *frame, fn *ssa.Function, name string, args 
 	if strings.HasSuffix(pp, "/internal/vx") {
 		return i.callVX(fr, fn, args), true
 	}
+	if strings.HasSuffix(pp, "/internal/vxsql") {
+		return i.callVXSQL(fr, fn, args), true
+	}
+	if pp == "database/sql" {
+		if r, ok := i.sqlMethod(fr, fn, name, args); ok {
+			return r, true
+		}
+	}
 	if h, ok := bridged[name]; ok {
 		i.noteStub(name)
 		return i.bridge(h, args), true
@@ -721,6 +729,9 @@ func (i *interpreter) fmtModel(fn *ssa.Function, name string, args []value) valu
 		case bool, int, int8, int16, int32, int64, uint, uint8, uint16, uint32, uint64, uintptr, float32, float64, string:
 			return x
 		case rtype:
+			if x.t == nil {
+				return "<nil>"
+			}
 			return x.t.String()
 		case nil:
 			return nil
